@@ -65,13 +65,15 @@ def case_to_coq(c):
             ops.append("OReq %d %s %d%%N %s (%d)%%Z" % (o["s"], KIND[k], o["p"], raw_req_coq(k, o.get("cols")), o.get("sz", 0)))
         elif o["t"] == "plan":
             ops.append("OPlan %d" % o["s"])
+        elif o["t"] == "send":
+            ops.append("OSend %d" % o["s"])
         elif o["t"] == "ret":
             ops.append("ORet %d %s" % (o["s"], b(o.get("ok"))))
         elif o["t"] == "stop":
             ops.append("OStop %d" % o["s"])
     sizes = {o["p"]: o.get("sz", 0) for o in c["ops"] if o["t"] == "req"}
     obs = []
-    for evs in c["obs"]:
+    for evs in (c.get("obs") or []):
         l = []
         for e in (evs or []):
             t = e["t"]
@@ -81,6 +83,8 @@ def case_to_coq(c):
                 l.append("EReq %d (PEnv %d%%N) %s %s (%d)%%Z %s" % (e["s"], e["p"], KIND[k], req_coq(k, cols), sizes[e["p"]], imm))
             elif t == "dial":
                 l.append("EDial %d %s" % (e["s"], b(e["ok"])))
+            elif t == "swap":
+                l.append("ESwap %d" % e["s"])
             elif t == "send":
                 k = kinds[e["s"]]
                 l.append("ESend %d %s (oblock %s)" % (e["s"], KIND[k], coq_list([runs(x) for x in (e.get("cols") or [])])))
@@ -93,8 +97,8 @@ def case_to_coq(c):
     # missing observation lists (the harness stopped early) make the case a mismatch by length
     cfg = coq_list(["(%s, %d, (%d)%%Z)" % (KIND[s["kind"]], i, s.get("maxq", 0)) for i, s in enumerate(c["svcs"])])
     dials = coq_list([coq_list([b(x) for x in (d or [])]) for d in (c.get("dials") or [[] for _ in c["svcs"]])])
-    return ("{| c_id := (%d)%%Z; c_cfg := %s; c_attempts := %d%%N; c_dials := %s;\n     c_ops := %s;\n     c_obs := %s |}"
-            % (c["id"], cfg, c.get("attempts", 1), dials, coq_list(ops), coq_list(obs)))
+    return ("{| c_id := (%d)%%Z; c_cfg := %s; c_attempts := %d%%N; c_dials := %s; c_drained := %s;\n     c_ops := %s;\n     c_obs := %s |}"
+            % (c["id"], cfg, c.get("attempts", 1), dials, b(c.get("drained")), coq_list(ops), coq_list(obs)))
 
 
 HEADER = ("From Coq Require Import List NArith ZArith Bool.\n"
@@ -225,6 +229,7 @@ def shrink(ck, cmd, case, still_bad, budget=40):
             cand = dict(cur)
             cand["ops"] = cur["ops"][:i] + cur["ops"][i + 1:]
             cand.pop("obs", None)
+            cand["drained"] = False     # a shortened script no longer ends with the drain
             tries += 1
             inp = os.path.join(ck.work, "shrink_in.jsonl")
             outp = os.path.join(ck.work, "shrink_out.jsonl")
